@@ -1,3 +1,5 @@
 import Props.C06
 #print axioms C06.same_primaries
 #print axioms C06.white_to_white
+#print axioms C06.row_prim
+#print axioms C06.prim_close
